@@ -544,6 +544,13 @@ func (fr *frame) visit(instr ssa.Instruction) bool {
 	case *ssa.Go:
 		fn, args := fr.prepareCall(&ins.Call)
 		in.spawn(fr, fn, args)
+		if in.preemptBudget > 0 && !in.inInjection {
+			// the new goroutine may run before its creator continues
+			if in.Choose(2) == 1 {
+				in.preemptBudget--
+				in.switchTo(in.threads[len(in.threads)-1])
+			}
+		}
 	case *ssa.MakeChan:
 		n := in.concInt(fr.get(ins.Size))
 		in.nchan++
